@@ -133,6 +133,38 @@ Theorem C03_topx_accuracy_small :
 Proof. exact topx_accuracy_small. Qed.
 Print Assumptions C03_topx_accuracy_small.
 
+(* AddNewIntersectNode's out-of-scanbeam repair (model/IsectNode.v: the branch structure over the regenerated leaves,
+   tied to the real member function by exact correspondence): whenever the repair fires the stored point is, per axis,
+   within 1/2 + 2^-25 of a point of one of the two edges (|coordinates| <= 2^25), in every one of the six branches; in
+   the clamp branches it lies on the top or bottom scanline of the scanbeam. *)
+From Clip Require Import model.IsectNode proofs.IsectNode.
+Theorem C03_repaired_near_edge :
+  forall (e1 e2 : Active) (bot_y top_y : Z) (ip : pt),
+  edge_ok e1 -> edge_ok e2 -> pt_le (2 ^ 25) ip ->
+  (py (top e1) <= top_y -> py (top e2) <= top_y -> top_y <= bot_y -> bot_y <= py (bot e1) -> bot_y <= py (bot e2) ->
+  repair_kind e1 e2 bot_y top_y ip <> NoRepair ->
+  let r := apply_repair e1 e2 bot_y top_y ip (repair_kind e1 e2 bot_y top_y ip) in
+  near_edge e1 r \/ near_edge e2 r)%Z.
+Proof. exact repaired_near_edge. Qed.
+Print Assumptions C03_repaired_near_edge.
+
+Theorem C03_repaired_clamp_in_scanbeam :
+  forall (e1 e2 : Active) (bot_y top_y : Z) (ip : pt) to_top first,
+  (top_y <= bot_y)%Z -> repair_kind e1 e2 bot_y top_y ip = Clamp to_top first ->
+  (top_y <= py (apply_repair e1 e2 bot_y top_y ip (Clamp to_top first)) <= bot_y)%Z.
+Proof. exact repaired_clamp_in_scanbeam. Qed.
+Print Assumptions C03_repaired_clamp_in_scanbeam.
+
+Theorem C03_intersect_node_repaired_near_edge :
+  forall (e1 e2 : Active) (bot_y top_y : Z),
+  edge_ok e1 -> edge_ok e2 -> (Z.abs (curr_x e1) <= 2 ^ 25)%Z ->
+  (py (top e1) <= top_y -> py (top e2) <= top_y -> top_y <= bot_y -> bot_y <= py (bot e1) -> bot_y <= py (bot e2) ->
+  repair_kind e1 e2 bot_y top_y (raw_ip false e1 e2 top_y) <> NoRepair ->
+  near_edge e1 (add_new_intersect_node false e1 e2 bot_y top_y) \/
+  near_edge e2 (add_new_intersect_node false e1 e2 bot_y top_y))%Z.
+Proof. exact ani_lo_repaired_near_edge. Qed.
+Print Assumptions C03_intersect_node_repaired_near_edge.
+
 (* GetSegmentIntersectPt, default (truncating) variant: for |coordinates| <= 2^52 and ANY two segments, whenever it
    returns true the point lies in the bounding box of the first segment (t is clamped to [0,1], roundings are monotone) *)
 Theorem C03_isect_in_bbox :
